@@ -148,7 +148,7 @@ func newWal(db string, forceSync bool) (*wal, error) {
 		return nil, err
 	}
 	return &wal{
-		reader:    verifWALFile(file),
+		reader:    file,
 		forceSync: forceSync,
 	}, nil
 }
